@@ -24,7 +24,7 @@ class Lex:
     def engine(self, chars):
         """chars: list of 8-bit values (ints or z3) the stream delivers; after them the stream is at end of file"""
         E = Engine(self.M); stubs.install(E); ostream_stubs(E)
-        E.max_steps = 3_000_000
+        E.max_steps = 600_000          # constructor (20 keyword inserts) plus a few tokens need < 100 000 steps; a path that needs more does not end
         def classifier(name):
             rs = CLASSES[name]
             def f(E_, st, a):
@@ -40,6 +40,9 @@ class Lex:
                 E_.store(st, a[1], 1, chars[pos]); st.x['lexpos'] = pos + 1
             else:
                 E_.store(st, a[0].add(STATE_OFF), 4, 6)         # eofbit | failbit; the character is left unchanged
+                # a reader that keeps asking at end of file is looping: cut the path there instead of after the step budget
+                k = st.x.get('eofreads', 0) + 1; st.x['eofreads'] = k
+                if k > 64: raise Budget('reads at end of file')
             return a[0]
         E.stubs['_ZNSi3getERc'] = get
         def strtoul(E_, st, a):
@@ -138,7 +141,7 @@ def check_totality(ck, L, nbytes=3):
     work = [(r.st, 0) for r in rs if r.kind == 'ret']
     for r in rs:
         if r.kind != 'ret': ck.violation(f"lexer:attach:{r.kind}", f"Lexer start ends in {r.kind}: {r.val}", None)
-    ends = 0; toks = 0
+    ends = 0; toks = 0; reported = set()
     while work:
         st, k = work.pop()
         if k > nbytes + 2:
@@ -150,6 +153,8 @@ def check_totality(ck, L, nbytes=3):
                 ok_, m = E.sat(r.st)
                 bs = [model_int(m, c) for c in chars] if m else []
                 key = f"lexer:{r.kind}"
+                if key in reported: continue
+                reported.add(key)
                 ck.violation(key, f"readToken ends in {r.kind}: {r.val} on bytes {bs}", ck.replay_file(key, {'bytes': bs}), confirm_bytes(bs)); continue
             toks += 1
             t = r.val
